@@ -64,6 +64,9 @@ C19_Conforms == Is("Call") =>
   /\ (Cur.mode \in MustFail => Cur.outcome = "err")
   /\ (Cur.mode \in {"ok", "okWithStderr", "okNoNewline", "readsStdin", "sensor:ok", "fan.getPwm:ok", "fan.getRpm:ok"} /\ Cur.outcome = "ok" => Cur.sample = "42")
   /\ (Cur.mode = "okTrim" /\ Cur.outcome = "ok" => Cur.sample = " 17.5 ")
+  \* "either the command's trimmed output or an error": a call that reports success hands over what the command printed,
+  \* never an empty stand-in (a grandchild keeps the pipe open beyond the deadline: the output was complete long before)
+  /\ (Cur.mode = "grandchildHoldsStdout" /\ Cur.outcome = "ok" => Cur.sample = "5")
 
 \* conformance only (drift): a healthy command succeeds - on a heavily loaded machine it may not (pipes not closed within the
 \* WaitDelay while the process forks a lot), and the property allows "an error"
